@@ -22,7 +22,7 @@ ID = "C14"
 PROPS = "Props/C14.v"
 EXTRACT = "extract/ExC14.v"
 OBLIGATION = "merkle-collect-history"
-THEOREMS = ["C14_inv_step", "C14_complete", "C14_idempotent", "C14_reset", "C14_reset_uncollects",
+THEOREMS = ["C14_inv_step", "C14_complete", "C14_idempotent", "C14_failed_op_is_noop", "C14_reset", "C14_reset_uncollects",
             "C14_uncollected_frame", "C14_collect_reports_uncollected", "C14_reset_partial",
             "C14_reset_partial_satisfiable", "C14_collect_early_refuted", "C14_write_force_collect",
             "C14_force_lazy_refuted", "C14_reports_sound",
@@ -33,7 +33,9 @@ RULE = ("C10's histories (5-60 operations over <= 12 generic or Directory/Conten
         "ancestors: every node below a reset is owed to the first later collect that has it below), and detach / "
         "mutate-or-not / re-attach of a subtree; out-of-band data writes (op W) followed by update_hash(force=True) "
         "at a dominating node and a collect: every node below the forced node must be reported again with its new "
-        "hash (C14_write_force_collect); non-trivial = at least 2 collects and a "
+        "hash (C14_write_force_collect); operations that raise between two collects of the same root are not a "
+        "change (C14_failed_op_is_noop): the second collect must report nothing and no collected flag may fall; "
+        "non-trivial = at least 2 collects and a "
         "successful mutation between two of them; distinct = distinct request line")
 TRUSTED = base.TRUSTED + ["a Python set of nodes deduplicates by (hash(node.hash), ==): modelled as 'any sub-collection "
                           "keeping one representative per class of equal-hash equal-structure nodes'"]
@@ -68,7 +70,7 @@ def gen(rng, tier):
     for k in range(n_cases):
         world = "generic" if k % 2 == 0 else "disk"
         nops = rng.randrange(5, 61)
-        c = base.gen_case(rng, world, nops, WEIGHTS, nscen=12, readall=(rng.random() < 0.2))
+        c = base.gen_case(rng, world, nops, WEIGHTS, nscen=14, readall=(rng.random() < 0.2))
         if rng.random() < 0.3:
             pre = detach_scenario(rng, world)
             sh = Shadow()
